@@ -300,20 +300,14 @@ impl LintRule for Spy {
       line: ti.line_index(c.range().start),
     };
     log.all_comments = ctx.all_comments().map(mk).collect();
-    // the three cases of `parse_file_ignore_directives`, re-stated over the public API
+    // the file's leading comments, by their meaning (not by the implementation's case analysis): every comment that
+    // starts before the first token of the program, the shebang aside
     {
-      use deno_ast::view as ast_view;
+      use deno_ast::swc::parser::token::Token;
       use deno_ast::RootNode;
-      let (has_shebang, first) = match program {
-        ast_view::Program::Module(m) => (m.shebang().is_some(), m.body.first().map(|n| n.range())),
-        ast_view::Program::Script(s) => (s.shebang().is_some(), s.body.first().map(|n| n.range())),
-      };
-      let cc = program.comment_container();
-      let v: Vec<SpyComment> = match (has_shebang, first) {
-        (false, _) => cc.leading_comments(program.start()).map(mk).collect(),
-        (true, Some(r)) => cc.leading_comments(r.start).map(mk).collect(),
-        (true, None) => cc.trailing_comments(program.end()).map(mk).collect(),
-      };
+      let first_token = program.token_container().tokens.iter().find(|t| !matches!(t.token, Token::Shebang(_))).map(|t| t.start());
+      let mut v: Vec<SpyComment> = ctx.all_comments().filter(|c| first_token.map_or(true, |ft| c.range().start < ft)).map(mk).collect();
+      v.sort_by_key(|c| c.start);
       log.initial_comments = v;
     }
     if log.want_cf {
